@@ -1881,8 +1881,9 @@ func (l *MPLSLabelStack) DecodeFromBytes(data []byte, options ...*MarshallingOpt
 		if len(labels) > 0 {
 			return NewMessageError(BGP_ERROR_UPDATE_MESSAGE_ERROR, BGP_ERROR_SUB_MALFORMED_ATTRIBUTE_LIST, nil, "MPLS label stack missing bottom-of-stack bit")
 		}
-		l.Labels = []uint32{}
-		return nil
+		// fewer than three octets: a labelled NLRI carries at least one label
+		// (or the withdraw field); an empty stack cannot be serialised again
+		return NewMessageError(BGP_ERROR_UPDATE_MESSAGE_ERROR, BGP_ERROR_SUB_MALFORMED_ATTRIBUTE_LIST, nil, "MPLS label stack is empty")
 	}
 	l.Labels = labels
 	return nil
